@@ -21,6 +21,7 @@ import (
 // (with its index)".
 func (w *w1) onProduceAck(rec *produceRec) {
 	w.sim.Note("produce-reply %s/%d c%d.%d code=%d base=%d n=%d acks=%d %s", rec.topic, rec.part, rec.client, rec.seq, rec.code, rec.base, rec.nrec, rec.acks, mal(rec))
+	w.judgeHealthProduce(rec, simrt.TaskName())
 	if rec.code != 0 || rec.acks == 0 || w.cfg("flush_on_ack", 1) != 1 {
 		return
 	}
@@ -42,6 +43,10 @@ func (w *w1) onProduceAck(rec *produceRec) {
 // C05: "the partition end offset published in the metadata store never
 // decreases. It never exceeds one past the last offset stored in S3 segments."
 func (w *w1) stepInvariant() error {
+	if w.prop == "C25" {
+		w.healthStep()
+		return nil
+	}
 	if w.prop != "C05" {
 		return nil
 	}
@@ -174,6 +179,7 @@ func (w *w1) opFetch(client, seq int, op simrt.Op) {
 // onFetchReply judges one fetch response (C03, C04, C05's HW clause).
 func (w *w1) onFetchReply(fr *fetchRec) {
 	w.sim.Note("fetch-reply %s/%d@%d max=%d code=%d hw=%d bytes=%d", fr.topic, fr.part, fr.offset, fr.maxBytes, fr.code, fr.hw, len(fr.data))
+	w.judgeHealthFetch(fr)
 	if fr.code != 0 {
 		return
 	}
@@ -330,7 +336,7 @@ func (w *w1) judgeProgress(fr *fetchRec, known []logBatch, batches []*kbatch.Bat
 		lb := batches[len(batches)-1]
 		last = lb.BaseOffset + int64(lb.LastOffsetDelta)
 	}
-	w.sim.Fail("C04", "fetch-only-before-offset", "fetch %s/%d@%d max=%d returned only data up to offset %d (plus %d trailing bytes); the start of batch %d holding/after the offset is not included", fr.topic, fr.part, fr.offset, fr.maxBytes, last, len(rest), target.base)
+	w.sim.FailSoft("C04", "fetch-only-before-offset", "fetch %s/%d@%d max=%d returned only data up to offset %d (plus %d trailing bytes); the start of batch %d holding/after the offset is not included", fr.topic, fr.part, fr.offset, fr.maxBytes, last, len(rest), target.base)
 }
 
 func beU64(b []byte) uint64 {
@@ -383,5 +389,7 @@ func (w *w1) finish() {
 	switch w.prop {
 	case "C02":
 		w.judgeOffsets()
+	case "C44":
+		w.judgeReplicaOps()
 	}
 }
